@@ -242,7 +242,8 @@ CHECKS["C15"] = {
             "lines) and hydrogen rows (mmCIF: fold over the atom_site rows); only_atomic_coords in the mmCIF model is the removal of the single "
             "items; only_first_model in the PDB model is the unrestricted reader on the lines before the record that starts a second model, "
             "followed by that record's step (which closes the first model as without the option, opens none and stops the reader; a stopped "
-            "reader ignores the rest). Proved for the name functions (models of guess_format and check_extension / save / save_gz): a path dir/stem.ext is classified "
+            "reader ignores the rest); in the row loop of the mmCIF model a row of another model than the one settled on stops the loop "
+            "without touching the structure and a stopped loop ignores the rows that follow. Proved for the name functions (models of guess_format and check_extension / save / save_gz): a path dir/stem.ext is classified "
             "by ext alone, case-insensitively; stem.ext.gz selects decompression and the format of ext; names without a dot and hidden files have "
             "no extension. The specification of the options is the C01 / C02 specification applied to the filtered records or rows (hydrogens "
             "removed, first model only, no metadata); every generated text is read by the crate under all eight option sets and compared with it "
